@@ -33,6 +33,9 @@ pub struct Cfg {
     /// 3 = zero interval
     #[serde(default)]
     pub fdt_carousel: u8,
+    /// session OTI = Raptor (16, 64, parity 1): the FDT instances are Raptor-coded
+    #[serde(default)]
+    pub sess_real_raptor: bool,
 }
 
 pub fn catalog_of(kind: u8) -> Vec<ObjSpec> {
@@ -66,7 +69,7 @@ pub fn catalog() -> Vec<ObjSpec> {
 }
 
 pub fn sess(c: &Cfg) -> SessSpec {
-    let mut s = SessSpec::basic(if c.sess_rs { OtiSpec::new(Scheme::Rs28, 256, 64, 2, true) } else if c.sess_raptor { OtiSpec::new(Scheme::Rs28, 512, 64, 0, true) } else { OtiSpec::new(Scheme::NoCode, c.fdt_e, 64, 0, true) });
+    let mut s = SessSpec::basic(if c.sess_real_raptor { OtiSpec::new(Scheme::Raptor, 16, 64, 1, true) } else if c.sess_rs { OtiSpec::new(Scheme::Rs28, 256, 64, 2, true) } else if c.sess_raptor { OtiSpec::new(Scheme::Rs28, 512, 64, 0, true) } else { OtiSpec::new(Scheme::NoCode, c.fdt_e, 64, 0, true) });
     s.full_fdt = c.full_fdt;
     s.fdt_carousel = match c.fdt_carousel {
         1 => Carousel::Interval(2000),
@@ -295,12 +298,12 @@ pub fn configs() -> Vec<Cfg> {
                     if fdt_e == 1424 && (multiplex == 2 || queues == 1) {
                         continue;
                     }
-                    v.push(Cfg { full_fdt, multiplex, queues, fdt_e, catalog_kind: 0, sess_raptor: false, sess_rs: false, fdt_carousel: 0 });
+                    v.push(Cfg { full_fdt, multiplex, queues, fdt_e, catalog_kind: 0, sess_raptor: false, sess_rs: false, fdt_carousel: 0, sess_real_raptor: false });
                     if fdt_e == 512 {
-                        v.push(Cfg { full_fdt, multiplex, queues, fdt_e, catalog_kind: 1, sess_raptor: false, sess_rs: false, fdt_carousel: 0 });
-                        v.push(Cfg { full_fdt, multiplex, queues, fdt_e, catalog_kind: 2, sess_raptor: false, sess_rs: false, fdt_carousel: 0 });
+                        v.push(Cfg { full_fdt, multiplex, queues, fdt_e, catalog_kind: 1, sess_raptor: false, sess_rs: false, fdt_carousel: 0, sess_real_raptor: false });
+                        v.push(Cfg { full_fdt, multiplex, queues, fdt_e, catalog_kind: 2, sess_raptor: false, sess_rs: false, fdt_carousel: 0, sess_real_raptor: false });
                         if queues == 2 {
-                            v.push(Cfg { full_fdt, multiplex, queues, fdt_e, catalog_kind: 3, sess_raptor: false, sess_rs: false, fdt_carousel: 0 });
+                            v.push(Cfg { full_fdt, multiplex, queues, fdt_e, catalog_kind: 3, sess_raptor: false, sess_rs: false, fdt_carousel: 0, sess_real_raptor: false });
                         }
                     }
                 }
@@ -309,20 +312,24 @@ pub fn configs() -> Vec<Cfg> {
     }
     // FDT instances protected by repair packets
     for full_fdt in [true, false] {
-        v.push(Cfg { full_fdt, multiplex: 2, queues: 1, fdt_e: 512, catalog_kind: 0, sess_raptor: false, sess_rs: true, fdt_carousel: 0 });
-        v.push(Cfg { full_fdt, multiplex: 1, queues: 2, fdt_e: 512, catalog_kind: 1, sess_raptor: false, sess_rs: true, fdt_carousel: 0 });
+        v.push(Cfg { full_fdt, multiplex: 2, queues: 1, fdt_e: 512, catalog_kind: 0, sess_raptor: false, sess_rs: true, fdt_carousel: 0, sess_real_raptor: false });
+        v.push(Cfg { full_fdt, multiplex: 1, queues: 2, fdt_e: 512, catalog_kind: 1, sess_raptor: false, sess_rs: true, fdt_carousel: 0, sess_real_raptor: false });
     }
     // the FDT's own carousel mode
     for full_fdt in [true, false] {
         for fdt_carousel in 1..=3u8 {
-            v.push(Cfg { full_fdt, multiplex: 1, queues: 1, fdt_e: 512, catalog_kind: 0, sess_raptor: false, sess_rs: false, fdt_carousel });
+            v.push(Cfg { full_fdt, multiplex: 1, queues: 1, fdt_e: 512, catalog_kind: 0, sess_raptor: false, sess_rs: false, fdt_carousel, sess_real_raptor: false });
         }
-        v.push(Cfg { full_fdt, multiplex: 2, queues: 2, fdt_e: 1424, catalog_kind: 1, sess_raptor: false, sess_rs: false, fdt_carousel: 1 });
+        v.push(Cfg { full_fdt, multiplex: 2, queues: 2, fdt_e: 1424, catalog_kind: 1, sess_raptor: false, sess_rs: false, fdt_carousel: 1, sess_real_raptor: false });
+    }
+    // Raptor-coded FDT instances
+    for full_fdt in [true, false] {
+        v.push(Cfg { full_fdt, multiplex: 1, queues: 2, fdt_e: 512, catalog_kind: 0, sess_raptor: false, sess_rs: false, fdt_carousel: 0, sess_real_raptor: true });
     }
     // publications that fail (see `sess_raptor`)
     for full_fdt in [true, false] {
-        v.push(Cfg { full_fdt, multiplex: 1, queues: 1, fdt_e: 512, catalog_kind: 0, sess_raptor: true, sess_rs: false, fdt_carousel: 0 });
-        v.push(Cfg { full_fdt, multiplex: 2, queues: 2, fdt_e: 512, catalog_kind: 0, sess_raptor: true, sess_rs: false, fdt_carousel: 0 });
+        v.push(Cfg { full_fdt, multiplex: 1, queues: 1, fdt_e: 512, catalog_kind: 0, sess_raptor: true, sess_rs: false, fdt_carousel: 0, sess_real_raptor: false });
+        v.push(Cfg { full_fdt, multiplex: 2, queues: 2, fdt_e: 512, catalog_kind: 0, sess_raptor: true, sess_rs: false, fdt_carousel: 0, sess_real_raptor: false });
     }
     v
 }
